@@ -58,6 +58,7 @@ func (nd *c17node) set() []string {
 }
 
 type c17world struct {
+	forceSubs []string // subscriber ids the next stable end-to-end check must include
 	c      *sim.Ctx
 	net    *vhNet
 	ids    []string
@@ -154,14 +155,16 @@ func c17Gen(r *sim.Rand, tier string) *sim.Case {
 		n = r.Range(5, 24)
 	}
 	for i := 0; i < n; i++ {
-		w := []int{6, 6, 0, 0, 0, 0, 0, 0, 0, 4, 3, 0}
+		w := []int{6, 6, 0, 0, 0, 0, 0, 0, 0, 4, 3, 0, 0}
 		switch cs.Variant {
 		case "membership":
 			w[2], w[3], w[4] = 8, 3, 2
 		case "faults":
-			w[2], w[5], w[6], w[7], w[8], w[11] = 6, 4, 3, 3, 3, 2
+			w[2], w[5], w[6], w[7], w[8], w[11], w[12] = 6, 4, 3, 3, 3, 2, 3
 		case "mixed":
-			w[2], w[3], w[4], w[5], w[6], w[7], w[8], w[11] = 6, 2, 1, 3, 3, 2, 2, 2
+			w[2], w[3], w[4], w[5], w[6], w[7], w[8], w[11], w[12] = 6, 2, 1, 3, 3, 2, 2, 2, 2
+		case "static":
+			w[12] = 3
 		}
 		a, b := int64(r.N(nn)), int64(r.N(nn))
 		switch r.Weighted(w...) {
@@ -191,6 +194,8 @@ func c17Gen(r *sim.Rand, tier string) *sim.Case {
 			cs.Ops = append(cs.Ops, sim.Op{K: "sleep", A: []int64{int64(r.Weighted(3, 3, 2, 2, 1))}})
 		case 10:
 			cs.Ops = append(cs.Ops, sim.Op{K: "alloc", A: []int64{a, int64(r.N(6))}})
+		case 12:
+			cs.Ops = append(cs.Ops, sim.Op{K: "lostforward", A: []int64{int64(r.U64() >> 8), int64(r.N(nn))}})
 		case 11:
 			if r.P(50) {
 				cs.Ops = append(cs.Ops, sim.Op{K: "loss", A: []int64{int64(r.Range(1, 4))}})
@@ -226,14 +231,22 @@ func (w *c17world) startNode(nd *c17node) {
 }
 
 // addAll completes the membership: every live node learns every member.
+// Each membership announcement reaches a node twice at the same time (two
+// sources announcing the same member), as overlapping AddPeer calls.
 func (w *c17world) addAll() {
+	var ts []*simrt.Task
 	for _, nd := range w.liveNodes() {
 		for _, o := range w.nodes {
 			if o != nd && o.p != nil {
-				nd.addPeer(o.id)
+				nd, id := nd, o.id
+				nd.cfg[id] = true
+				for k := 0; k < 2; k++ {
+					ts = append(ts, w.c.S.Spawn("addpeer@"+nd.id, nd.node, func() { nd.p.AddPeer(id) }))
+				}
 			}
 		}
 	}
+	w.c.S.Join(ts...)
 }
 
 func (w *c17world) liveNodes() []*c17node {
@@ -407,7 +420,9 @@ func (w *c17world) e2e(seed int64, relAt int64) {
 		return
 	}
 	live := w.liveNodes()
-	for _, s := range w.subs(seed, 2) {
+	subjects := append(append([]string(nil), w.forceSubs...), w.subs(seed, 2)...)
+	w.forceSubs = nil
+	for _, s := range subjects {
 		res := make([]*c17resp, len(live))
 		var ts []*simrt.Task
 		for i, nd := range live {
@@ -679,6 +694,35 @@ func c17Run(c *sim.Ctx) {
 		case "sleep":
 			d := []time.Duration{time.Second, w.iv + time.Second, time.Duration(w.thr-1)*w.iv + time.Second, time.Duration(w.thr+1)*w.iv + time.Second, 2 * time.Duration(w.thr+1) * w.iv}[int(op.Arg(0))%5]
 			c.S.Sleep(d)
+		case "lostforward":
+			// one forwarded request's answer is lost while every node still regards the owner as
+			// healthy (below the failure threshold); then the same subscriber is asked for everywhere
+			if ok, _ := w.stable(); !ok || len(w.liveNodes()) < 2 {
+				break
+			}
+			live := w.liveNodes()
+			s := w.subs(op.Arg(0)^int64(i)<<4, 1)[0]
+			owner := live[0].p.GetOwner(s)
+			var entry *c17node
+			for k := range live {
+				if nd := live[(int(op.Arg(1))+k)%len(live)]; nd.id != owner {
+					entry = nd
+					break
+				}
+			}
+			if entry == nil {
+				break
+			}
+			n.LoseNext["/pool/allocate"]++
+			c.S.Fault("net.ackloss.forwarded-allocate")
+			var ferr error
+			c.S.Join(c.S.Spawn("alloc@"+entry.id, entry.node, func() { _, ferr = entry.p.Allocate(context.Background(), s, nil) }))
+			delete(n.LoseNext, "/pool/allocate")
+			c.S.Logf("forwarded allocate for %q entering at %q (owner %q) with its answer lost -> err=%v", s, entry.id, owner, ferr != nil)
+			c.OpsDone++
+			w.forceSubs = []string{s}
+			w.e2e(op.Arg(0), op.Arg(1))
+			w.forceSubs = nil
 		case "alloc":
 			// a request under whatever faults are in flight: it may leave residue; nothing is asserted about it
 			x := pick(op.Arg(0))
